@@ -99,6 +99,9 @@ def writeback_conservation(run: Run, model: PyModel, rid: str) -> None:
                     bad = why
                     break
                 want[sp["line_no"] - 1] = one
+            if bad is not None and bad.startswith("VIOLATION: "):
+                run.refuted(rid, "write-back", f"{fi.name}: lines below the first line change", f"write-back ({fi.name}): {bad[11:]}", file=FILE_H, node=fi.node)
+                continue
             if bad is not None:
                 run.undecided(rid, fi.name, f"{label}: {bad}")
                 continue
@@ -291,6 +294,9 @@ def zid_assignment_eval(run: Run, model: PyModel, rid: str) -> None:
             prefixes = ["- ", "o P1 ", "  x P0 ", "-   ", "o P1   "] + ([] if real_priority else ["o ", "~ ", "<  "])
             for prefix in prefixes:
                 lv, why = writeback_line(model, "NewZorgNotesEvent", prefix + text, dict(body=f["body"], zid=zid), "new_notes", probes={"zorg.shared.dates.is_long_date_spec": long_date})
+                if lv is None and why.startswith("VIOLATION: "):
+                    run.refuted(rid, "write-back", "ZID write-back: lines below the first line change", f"ZID write-back: {why[11:]}", file=FILE_R, node=fz.node)
+                    continue
                 if lv is None:
                     run.undecided(rid, "ZID write-back", why)
                     continue
